@@ -437,9 +437,10 @@ def section_handover(c, model_chk, model):
                 if tr2.kind != 'next' or not tr2.calls('cfg_parse_internal'):
                     continue
                 r2 = tr2.events.index(tr2.calls('cfg_parse_internal')[0])
-                has_name = any(cn[0] == 'icmp' and cn[3] == sym.C0 and sym.norm(cn[2]) == ('ld', ('fld', ('p', 'cfg'), 'cfg_t', 'filename')) and ((cn[1] == 'ne') == t)
-                               for cn, t, _ in tr2.assume)
-                if not has_name:
+                # (every entry on which the parent was not shown to have no name: also one that never asks)
+                no_name = any(cn[0] == 'icmp' and cn[3] == sym.C0 and sym.norm(cn[2]) == ('ld', ('fld', ('p', 'cfg'), 'cfg_t', 'filename')) and ((cn[1] == 'eq') == t)
+                              for cn, t, _ in tr2.assume)
+                if no_name:
                     continue
                 dups = [e for e in tr2.events[:r2] if e.kind == 'call' and e.name == 'strdup' and sym.norm(e.args[0]) == ('ld', ('fld', ('p', 'cfg'), 'cfg_t', 'filename'))]
                 failed = any(fp.is_null_assumption(cn, t) and fp.is_null_assumption(cn, t)[1] and any(fp.is_null_assumption(cn, t)[0] == d.res for d in dups)
